@@ -712,7 +712,8 @@ class OneSidedF(ECcone):
         d1 = ECcone.__call__(self, np.sqrt(x * self.dfn), search=search)
         IntrinsicVolumes.__init__(self, self.regions[1])
         d2 = ECcone.__call__(self, np.sqrt(x * (self.dfn-1)), search=search)
-        self.mu = self.regions[0].mu
+        # restore mu AND order (order was left at that of regions[1])
+        IntrinsicVolumes.__init__(self, self.regions[0])
         return (d1 - d2) * 0.5
 
 
